@@ -1,5 +1,6 @@
 import TextxVerif.Wire
 import TextxVerif.Rrel
+import TextxVerif.RrelProvider
 /-! Driver for the RREL evaluation model (C11).
 op:
   {"op":"find","parent":[p|null…],"name":[s|null…],"conf":[[T…]…],
@@ -11,6 +12,13 @@ op:
        | {"k":"br","i","e":SEQ} | {"k":"star","i","e":SEQ}
   SEQ  = {"k":"seq","i","alts":[PATH…]}
   {"op":"split","text":s,"sep":s} → {"parts":[…]}
+  {"op":"session","fuel":n,
+   "providers":[{"top":[PATH…],"split":s|null,"p":bool}…],          -- provider objects
+   "heaps":[{"parent","name","conf","attrs","unres","extra"}…],     -- the models loaded one after the other
+   "calls":[{"prov":i,"h":j,"o":n,"text":s,"rule_split":s|null,"cls":s|null}…]}   -- the references, in order
+     → {"results":[{"res":"found","obj","path","proxy","sep"} | {"res":"none","sep"} | {"res":"postponed","sep"}…]}
+       | {"err":"fuel"}
+     (each provider object is threaded through its calls: `Provider.call` returns the object after the call)
 -/
 open Lean Wire Rrel
 
@@ -80,16 +88,54 @@ def mkHeap (par : Array (Option Nat)) (nm : Array (Option String)) (cf : Array (
   extra := extra
   depth := par.size
 
+def parseHeap (j : Json) : Option Heap := do
+  let par ← (← getArr? j "parent").mapM optNat
+  let nm ← (← getArr? j "name").mapM optStr
+  let cf ← (← getArr? j "conf").mapM (fun x => (fromJson? x : Except String (List String)).toOption)
+  let ats ← (← getArr? j "attrs").mapM parseAttrs
+  let un ← parseUnres (← getArr? j "unres")
+  let extra ← getNatList? j "extra"
+  guard (par.size == nm.size && nm.size == cf.size && cf.size == ats.size)
+  pure (mkHeap par nm cf ats un extra)
+
+def resJson (extra : List (String × Json)) : Res → Option Json
+  | .found s =>
+    let base : List (String × Json) := [("res", "found"), ("obj", toJson s.o), ("path", toJson s.path),
+      ("proxy", toJson (proxyPath s))]
+    some (Json.mkObj (base ++ extra))
+  | .postponed => some (Json.mkObj ((("res", "postponed") : String × Json) :: extra))
+  | .cont _ => some (Json.mkObj ((("res", "none") : String × Json) :: extra))
+  | .fuel => none
+
+def parseProvider (j : Json) : Option Provider := do
+  let top ← (← getArr? j "top").toList.mapM parsePath
+  let split ← optStr (← getObj? j "split")
+  guard (split != some "")
+  pure ⟨top, split, ← getBool? j "p"⟩
+
+/-- the references of a session in order; every provider object is replaced by what its call returns -/
+def runSession (fuel : Nat) (heaps : Array Heap) :
+    Array Provider → List (Nat × Nat × Call) → Option (List (Res × String))
+  | _, [] => some []
+  | ps, (pi, hi, c) :: rest => do
+    let p ← ps[pi]?
+    let H ← heaps[hi]?
+    guard (c.o < H.depth)
+    let (r, p') := p.call H fuel c
+    let tail ← runSession fuel heaps (ps.set! pi p') rest
+    pure ((r, p.delim c) :: tail)
+
+def parseCall (j : Json) : Option (Nat × Nat × Call) := do
+  let rs ← optStr (← getObj? j "rule_split")
+  guard (rs != some "")
+  pure (← getNat? j "prov", ← getNat? j "h",
+    ⟨← getNat? j "o", ← getStr? j "text", rs, ← optStr (← getObj? j "cls")⟩)
+
 def handle (j : Json) : Json :=
   match getStr? j "op" with
   | some "find" =>
     let r : Option Json := do
-      let par ← (← getArr? j "parent").mapM optNat
-      let nm ← (← getArr? j "name").mapM optStr
-      let cf ← (← getArr? j "conf").mapM (fun x => (fromJson? x : Except String (List String)).toOption)
-      let ats ← (← getArr? j "attrs").mapM parseAttrs
-      let un ← parseUnres (← getArr? j "unres")
-      let extra ← getNatList? j "extra"
+      let H ← parseHeap j
       let top ← (← getArr? j "top").toList.mapM parsePath
       let o ← getNat? j "o"
       let ns ← match getStrList? j "ns" with
@@ -101,14 +147,19 @@ def handle (j : Json) : Json :=
           pure (splitName t sep)
       let cls ← optStr (← getObj? j "cls")
       let fuel ← getNat? j "fuel"
-      guard (par.size == nm.size && nm.size == cf.size && cf.size == ats.size && o < par.size)
-      let H := mkHeap par nm cf ats un extra
-      pure <| match find H fuel top o ns cls with
-        | .found s => Json.mkObj [("res", "found"), ("obj", toJson s.o), ("path", toJson s.path),
-                                  ("proxy", toJson (proxyPath s))]
-        | .postponed => Json.mkObj [("res", "postponed")]
-        | .cont _ => Json.mkObj [("res", "none")]
-        | .fuel => fuelOut
+      guard (o < H.depth)
+      pure <| (resJson [] (find H fuel top o ns cls)).getD fuelOut
+    r.getD badOp
+  | some "session" =>
+    let r : Option Json := do
+      let fuel ← getNat? j "fuel"
+      let ps ← (← getArr? j "providers").mapM parseProvider
+      let hs ← (← getArr? j "heaps").mapM parseHeap
+      let cs ← (← getArr? j "calls").toList.mapM parseCall
+      let rs ← runSession fuel hs ps cs
+      pure <| match rs.mapM (fun (r, sep) => resJson [("sep", toJson sep)] r) with
+        | some l => Json.mkObj [("results", Json.arr l.toArray)]
+        | none => fuelOut
     r.getD badOp
   | some "split" =>
     match getStr? j "text", getStr? j "sep" with
